@@ -314,4 +314,89 @@ theorem accepts_refused_code (c : Nat) (codes : List (Option Nat)) (k : Nat) (h 
     rw [h1, h2]
     exact .nil
 
+/-! ### `Accepts` is not vacuous: a missing and a surplus delivery are rejected -/
+
+theorem gots_flatten_nil {pool : List SOut} {gots : List (List Pub)} (h : Gots pool gots) (hf : gots.flatten = []) :
+    ∀ o cs, SOut.deliver o cs ∉ pool := by
+  induction h with
+  | nil => intro o cs hm; cases hm
+  | @cons x got xs gots hx _ ih =>
+    simp only [List.flatten_cons, List.append_eq_nil_iff] at hf
+    intro o cs hm
+    rcases List.mem_cons.mp hm with rfl | hm
+    · exact hx.1 hf.1
+    · exact ih hf.2 o cs hm
+
+/-- nothing written to an addressee: the reference broker demanded no delivery to it -/
+theorem matchGroup_nil_right {cb : Bool} {ss : List SOut} (h : MatchGroup cb ss []) : ∀ o cs, SOut.deliver o cs ∉ ss := by
+  generalize hos : ([] : List Out) = os at h
+  induction h with
+  | nil => intro o cs hm; cases hm
+  | send => cases hos
+  | closed => cases hos
+  | sendOrClose_sent => cases hos
+  | sendOrClose_closed => cases hos
+  | refused_plain => cases hos
+  | refused_code => cases hos
+  | pool pool run _ _ _ _ hpm _ ih =>
+    have hr : run = [] := by
+      cases run with
+      | nil => rfl
+      | cons => cases hos
+    subst hr
+    simp only [List.nil_append] at hos
+    obtain ⟨_, gots, hg, hperm⟩ := hpm
+    simp only [List.filterMap_nil, List.map_nil] at hperm
+    have hfl : gots.flatten = [] := List.Perm.eq_nil (hperm.symm)
+    intro o cs hm
+    rcases List.mem_append.mp hm with hm | hm
+    · exact gots_flatten_nil hg hfl o cs hm
+    · exact ih hos o cs hm
+
+/-- a demanded delivery that does not happen is not accepted -/
+theorem accepts_missing_delivery_rejected (o : Nat) (p : Pub) : ¬ Accepts [.deliver o [p]] [] := by
+  intro h
+  rcases h with h | ⟨_, h⟩
+  · simp [isUnspecified] at h
+  · have := matchGroup_nil_right (h o) o [p]
+    apply this
+    simp [specGroup, SOut.owner, isEmptyRetained]
+
+/-- a PUBLISH nobody demanded is not accepted -/
+theorem accepts_surplus_publish_rejected (c : Nat) (p : Pub) : ¬ Accepts [] [.send c (.publish p)] := by
+  intro h
+  rcases h with h | ⟨_, h⟩
+  · simp at h
+  · have hg := h c
+    have h2 : modelGroup c [Out.send c (.publish p)] = [Out.send c (.publish p)] := by simp [modelGroup, outOwner]
+    rw [specGroup_nil, h2] at hg
+    generalize hss : ([] : List SOut) = ss at hg
+    generalize hos : [Out.send c (.publish p)] = os at hg
+    induction hg with
+    | nil => cases hos
+    | send => cases hss
+    | closed => cases hss
+    | sendOrClose_sent => cases hss
+    | sendOrClose_closed => cases hss
+    | refused_plain => cases hss
+    | refused_code => cases hss
+    | pool pool run _ _ _ hmax hpm _ ih =>
+      have hp : pool = [] := by
+        cases pool with
+        | nil => rfl
+        | cons => cases hss
+      subst hp
+      simp only [List.nil_append] at hss
+      cases run with
+      | nil =>
+        simp only [List.nil_append] at hos
+        exact ih hss hos
+      | cons y ys =>
+        simp only [List.cons_append, List.cons.injEq] at hos
+        obtain ⟨_, gots, hg, hperm⟩ := hpm
+        cases hg
+        rw [← hos.1] at hperm
+        simp only [List.filterMap_cons, pubOf, List.map_cons, List.flatten_nil] at hperm
+        exact absurd hperm.length_eq (by simp)
+
 end Mqtt.Proofs.BrokerRefine
